@@ -46,7 +46,7 @@ def main():
             meta = json.load(open(mp))
             meta.setdefault("checks", {})[pid] = {"rc": rc, "violation": rc == 1, "mechanisms": mechs[:8], "secs": round(time.time() - t0, 1),
                                                   "summary": lines[-1][:300] if lines else "", "inconclusive": [l[:300] for l in lines if l.startswith("INCONCLUSIVE")][:2],
-                                                  "repo_head": subprocess.run("git -C /repo log -1 --format=%h", shell=True, capture_output=True, text=True).stdout.strip()}
+                                                  "verif_seed": os.environ.get("VERIF_SEED", "0"), "repo_head": subprocess.run("git -C /repo log -1 --format=%h", shell=True, capture_output=True, text=True).stdout.strip()}
             meta["caught_by"] = sorted(p for p, c in meta["checks"].items() if c.get("violation"))
             json.dump(meta, open(mp, "w"), indent=1)
             print(json.dumps({"seed_id": sid, "own": rc == 1, "caught_by": meta["caught_by"], "secs": round(time.time() - t0)}), flush=True)
